@@ -10,9 +10,12 @@
    The theorem below has NO productivity hypothesis left: "the start class pumps w.r.t.
    the extracted rules" is discharged by C03 (the table method's answer means pumping
    in the least fixed point) and C11 (minimisation keeps the start class pumping).
-   What remains are the two per-rule contracts (genuine: C09, local: C10) and the fact
-   that each extracted key has a rule with that key (the `_find_rule` contract, checked
-   on every real search by the C11 correspondence). *)
+   What remains are the two per-rule hypotheses genuine and local (for rules of the library's
+   constructors both are theorems: Spec/AdapterLocal.v srule_of_local, Spec/AdapterGenuine.v
+   srule_ofN_genuine, under the per-form contract about the true tables) and the fact that each
+   extracted key has a rule with that key (Hfound: the `_find_rule` contract on the UNGROUPED
+   extracted keys; it is checked by a C11 extra check on a few fixed live searches, not on every
+   search, and the object handed to the user is built with group_equiv=True). *)
 From Coq Require Import ZArith List Bool Lia.
 From CSS Require Import Forest.Spec Forest.Model Forest.Theorems Forest.Extractor
   Forest.ExtractorRun Forest.ExtractorTheorems Spec.Eval.
